@@ -921,7 +921,7 @@ impl<'a, 'b> Sentence<'a, 'b> {
             for tag in &ts[..ts.iter().rposition(|x| x.is_some()).map_or(0, |x| x + 1)] {
                 buf.push('/');
                 if let Some(tag) = tag {
-                    buf.push_str(tag);
+                    Self::push_partial_annotation_tag(buf, tag);
                 }
             }
             for ((c, ts), &b) in char_iter.zip(tag_iter).zip(&self.boundaries) {
@@ -934,7 +934,7 @@ impl<'a, 'b> Sentence<'a, 'b> {
                 for tag in &ts[..ts.iter().rposition(|x| x.is_some()).map_or(0, |x| x + 1)] {
                     buf.push('/');
                     if let Some(tag) = tag {
-                        buf.push_str(tag);
+                        Self::push_partial_annotation_tag(buf, tag);
                     }
                 }
             }
@@ -947,6 +947,20 @@ impl<'a, 'b> Sentence<'a, 'b> {
                 });
                 buf.push(c);
             }
+        }
+    }
+
+    /// Appends a tag, escaping the characters that have a special meaning inside a tag of
+    /// the partial annotation format so that the parser reads the same tag back.
+    fn push_partial_annotation_tag(buf: &mut String, tag: &str) {
+        for c in tag.chars() {
+            match c {
+                '\\' | '/' | '-' | '|' | ' ' => {
+                    buf.push('\\');
+                }
+                _ => (),
+            }
+            buf.push(c);
         }
     }
 
